@@ -1,6 +1,7 @@
 //@unit conv
 //@include head.rs
 //@include select_lib.rs
+//@export-begin
 
 //@extract src/methods/conv.rs struct:Conv
 //@end
@@ -117,5 +118,6 @@ pub proof fn conv_const_step(pre: Conv, v: R, post: Conv, out: R)
 	let (x, s) = (v@, sum(pre.weights@));
 	assert((x * s) / s == x) by(nonlinear_arith) requires s != 0real;
 }
+//@export-end
 } // verus!
 fn main() {}
